@@ -142,7 +142,71 @@ class RidgeCase:
         return [([lon0 + w * self.rng.uniform(0.05, 0.95), lat0 + h * self.rng.uniform(0.05, 0.95)], float(self.rng.choice([5e3, 20e3, 45e3, 80e3]))) for _ in range(n)]
 
 
+class TrenchCase:
+    """a structured Cartesian world: a long slab or fault (3-4 trench vertices over ~1500-3000 km in a random direction, listed in a random order of
+    east/west and north/south) with a short reach, over an oceanic plate; queries all along the trench; moved by random rotations.  (Anything a feature
+    precomputes per axis - the culling box - must follow the orientation.)"""
+    spherical = False
+
+    def __init__(self, rng):
+        self.rng = rng
+        az = rng.uniform(0, 2 * math.pi)
+        ln = rng.choice([1500e3, 2200e3, 3000e3])
+        x0, y0 = rng.uniform(-2e6, 2e6), rng.uniform(-2e6, 2e6)
+        n = rng.choice([3, 4])
+        d, nrm = (math.cos(az), math.sin(az)), (-math.sin(az), math.cos(az))
+        side = rng.choice([-1, 1])
+        self.pts = []
+        for j in range(n):
+            t = ln * j / (n - 1)
+            off = 0.0 if j in (0, n - 1) else rng.uniform(-0.05, 0.05) * ln
+            self.pts.append([round(x0 + d[0] * t + nrm[0] * off, 1), round(y0 + d[1] * t + nrm[1] * off, 1)])
+        self.nrm = (nrm[0] * side, nrm[1] * side)
+        mid = self.pts[n // 2]
+        fault = rng.random() < 0.35
+        seg = {"length": rng.choice([150e3, 250e3]), "thickness": [rng.choice([60e3, 100e3])], "angle": [rng.choice([30, 45, 60, 90])] if fault else [rng.choice([20, 40]), rng.choice([45, 70])]}
+        f = {"model": "fault" if fault else "subducting plate", "name": "L", "coordinates": self.pts, "dip point": [round(mid[0] + self.nrm[0] * 4e5, 1), round(mid[1] + self.nrm[1] * 4e5, 1)],
+             "segments": [seg], "temperature models": [{"model": "uniform", "temperature": 600}],
+             "composition models": [{"model": "uniform", "compositions": [1]}]}
+        big = 6e6
+        self.w = {"version": "1.1", "features": [
+            {"model": "oceanic plate", "name": "O", "coordinates": [[x0 - big, y0 - big], [x0 + big, y0 - big], [x0 + big, y0 + big], [x0 - big, y0 + big]], "max depth": 300e3,
+             "temperature models": [{"model": "linear", "max depth": 300e3, "top temperature": 300, "bottom temperature": 1600}], "composition models": [{"model": "uniform", "compositions": [0]}]}, f]}
+
+    def world(self):
+        return self.w
+
+    def step(self):
+        return 1e4
+
+    def point3(self, sp, depth):
+        return [sp[0], sp[1], 1000e3 - depth]
+
+    def queries(self, n):
+        r, out = self.rng, []
+        for _ in range(n):
+            j = r.randrange(len(self.pts) - 1)
+            t = r.uniform(0.02, 0.98)
+            a, b = self.pts[j], self.pts[j + 1]
+            u = r.uniform(-30e3, 180e3)
+            out.append(([a[0] + (b[0] - a[0]) * t + self.nrm[0] * u, a[1] + (b[1] - a[1]) * t + self.nrm[1] * u], float(r.uniform(2e3, 160e3))))
+        return out
+
+    def motions(self, rng, w):
+        out = []
+        for _ in range(3):
+            phi = rng.uniform(0, 360)
+            tx, ty = rng.choice([0, 250, -1300, 4000]) * 1e3, rng.choice([0, 90, 777, -2500]) * 1e3
+            c, s = math.cos(math.radians(phi)), math.sin(math.radians(phi))
+            fm = (lambda x, y, c=c, s=s, tx=tx, ty=ty: (c * x - s * y + tx, s * x + c * y + ty))
+            out.append(("rotate(%.3f)+translate(%g,%g)" % (phi, tx, ty), map_points(w, fm, lambda a, phi=phi: a - phi), fm, False))
+        return out
+
+
 def gen_case(rng, decl, spherical, tier):
+    if spherical == "trench":
+        g = TrenchCase(rng)
+        return g, g.world(), g.queries(budget(tier, 20, 40))
     if spherical == "ridge":
         g = RidgeCase(rng)
         return g, g.world(), g.queries(budget(tier, 14, 30))
@@ -226,7 +290,8 @@ def triangulations_differ(path_a, path_b, fpt, spherical):
                     if spherical:
                         x, y = math.degrees(x), math.degrees(y)
                     x, y = mp(x, y)
-                    tri.append((round(x, 6 if spherical else 1), round(y, 6 if spherical else 1)))
+                    # the nodal value is part of the signature: with a point listed twice (two values at one position) the two worlds can pick different copies
+                    tri.append((round(x, 6 if spherical else 1), round(y, 6 if spherical else 1), round(v[3 * k + 2], 3)))
                 cur.add(frozenset(tri))
         return surfaces
     try:
@@ -256,7 +321,8 @@ def oracle(seed, tier):
     for wi in range(budget(tier, 36, 400)):
         spherical = wi % 2 == 0
         # every sixth world: the structured oblique-ridge case (ages from a ridge with varying spreading velocity)
-        g, w, qs = gen_case(rng, decl, "ridge" if wi % 6 == 4 else spherical, tier)
+        # every sixth world: a long Cartesian trench under random rotations
+        g, w, qs = gen_case(rng, decl, "ridge" if wi % 6 == 4 else ("trench" if wi % 6 == 1 else spherical), tier)
         p0 = os.path.join(wdir, "o_%d.wb" % wi)
         json.dump(w, open(p0, "w"))
         lines = ["world a %s -" % p0]
@@ -264,7 +330,7 @@ def oracle(seed, tier):
             lines.append(q3("a", to3(g, sp, d), d, PROPS))
             for (sp2, d2) in neighbours(g, sp, d, spherical):
                 lines.append(q3("a", to3(g, sp2, d2), d2, PROPS))
-        mv = motions(rng, w, spherical)
+        mv = g.motions(rng, w) if hasattr(g, "motions") else motions(rng, w, spherical)
         if spherical:
             mv.append(("query longitude +-360", w, (lambda x, y: (x + 360 if x < 0 else x - 360, y)), True))
         for mi, (name, w2, fpt, exact) in enumerate(mv):
